@@ -955,6 +955,12 @@ fn common_hook(p: Point) {
 }
 
 fn run_program(prog: &Prog, mode: &str, strategy: Strategy, sseed: u64, stats: &mut mmv::monitor::Stats, keep_trace: bool) -> RunOut {
+    // full-speed contention programs: in a third of the runs every V::clone takes 20-60 us, which keeps
+    // the shard lock of an insert (or the map reference of a get) held that long
+    mmv::types::set_clone_spin_us(if mode == "chase" && sseed % 3 == 0 { 20 + (sseed / 3) % 41 } else { 0 });
+    if mode == "chase" && sseed % 3 == 0 {
+        stats.inc("runs_with_slow_value_clone");
+    }
     obj_reset();
     let cache = build_sync(&prog.cfg);
     let clock = cache.verif_install_mock_clock();
